@@ -323,7 +323,8 @@ with generate_type (fuel: nat) (n: node) (modifiers: list node) (emit_declname: 
     if is_c C_TypeDecl n then
       q <- gattr "quals" n ;;
       qs <- (if truthy_v q then (x <- join_strs (s " ") q ;; gret (x ++ s " ")) else gret []) ;;
-      ty <- gattr "type" n ;; ts <- visit f ty ;;
+      ty <- gattr "type" n ;; ts0 <- visit f ty ;;
+      let ts := if is_c C_Typename ty then s "_Atomic(" ++ ts0 ++ s ")" else ts0 in    (* the _Atomic(type-name) specifier *)
       dn <- gattr "declname" n ;;
       nstr0 <- (if truthy_v dn && emit_declname then as_str dn else gret []) ;;
       nstr <- (fix go (prev: option node) (ms: list node) (nstr: str) : GM str :=
